@@ -751,8 +751,7 @@ def _impl(path, which, walk="plain", csep_format=False, variant=0, strict_warnin
             import numpy
             with warnings.catch_warnings(), numpy.errstate(divide="raise", invalid="raise"), decimal.localcontext() as dctx:
                 dctx.prec = 2 + variant % 5
-                for cat_ in (RuntimeWarning, UserWarning, FutureWarning):
-                    warnings.simplefilter("error", cat_)
+                # a WARNING alone is never a violation: only numpy's divide / invalid ERROR state and the decimal context are forced
                 return _canon_loaded(_load(path, which, walk, csep_format, variant))
         return _canon_loaded(_load(path, which, walk, csep_format, variant))
     except WalkError as e:
